@@ -1,4 +1,6 @@
 
+val implb : bool -> bool -> bool
+
 val xorb : bool -> bool -> bool
 
 val negb : bool -> bool
@@ -804,6 +806,94 @@ val assemble :
 
 val sem_eval :
   nat -> nat -> tt list -> str list -> (str * tt) list -> tt -> tree -> tt res
+
+type bop =
+| BAnd
+| BOr
+| BXor
+| BIff
+| BImp
+
+type fnupd =
+| FConst of bool
+| FVar of nat
+| FNot of fnupd
+| FBin of bop * fnupd * fnupd
+| FParam of str * fnupd list
+
+val ch0 : n
+
+val ch1 : n
+
+val chu : n
+
+val pname : str -> str
+
+val bump : (str -> bool) -> nat -> str -> str
+
+val explode_rs : (str -> bool) -> nat -> fnupd list -> str -> fnupd
+
+val flatten_rs : (str -> bool) -> nat -> fnupd -> fnupd
+
+val eval_op : bop -> bool -> bool -> bool
+
+val eval_fn : (str -> bool list -> bool) -> (nat -> bool) -> fnupd -> bool
+
+val eval_flat : (str -> bool) -> (nat -> bool) -> fnupd -> bool
+
+val c_nl : n
+
+val c_cr : n
+
+val c_hash : n
+
+val c_dot : n
+
+val c_slash : n
+
+val s_bdd : str
+
+val s_dot_bdd : str
+
+val s_dot : str
+
+val s_dotdot : str
+
+val s_formula_dash : str
+
+val strip_prefix : str -> str -> str option
+
+val strip_suffix : str -> str -> str option
+
+val split_inclusive : str -> str list
+
+val lines_map : str -> str
+
+val lines : str -> str list
+
+val trim_start : str -> str
+
+val trim_end : str -> str
+
+val trim : str -> str
+
+val is_empty0 : 'a1 list -> bool
+
+val split : n -> str -> str list
+
+val skip_trivial : str list -> str list
+
+val file_name : str -> str option
+
+val extension_of_file_name : str -> str option
+
+val extension : str -> str option
+
+val keep_formula : str -> bool
+
+val load_formulae : str -> str list
+
+val result_label : nat -> str
 
 val ext_alnum_tbl : n -> bool
 
